@@ -132,6 +132,23 @@ def run(rng, tier, model_ok):
                 return None
             items.append(("%s %s to %s" % (lit(x), na, nb), o))
             stats["pairs"] += 1
+    # the conversion that + and - perform on their right operand is the same conversion: x A - y B = x - (y B to A), on scale A;
+    # and taking away what was added returns the reading
+    for a, b in itertools.product(scales, repeat=2):
+        for x, y in [(Fraction(300), Fraction(20)), (Fraction(50), Fraction(10)), (Fraction(100), Fraction(180)), (Fraction(0), Fraction(0)),
+                     (Fraction(-40), Fraction(-40)), (Fraction(5, 2), Fraction(-27315, 100)), (rng.choice(mags), rng.choice(mags))]:
+            conv = from_k(a, to_k(b, y))
+            na, nb = NAMES[a][0], NAMES[b][0]
+            for q, want in (("%s %s - %s %s" % (lit(x), na, lit(y), nb), x - conv), ("%s %s + %s %s" % (lit(x), na, lit(y), nb), x + conv),
+                            ("%s %s - %s %s + %s %s" % (lit(x), na, lit(y), nb, lit(y), nb), x),
+                            ("(%s %s - %s %s) to %s" % (lit(x), na, lit(y), nb, nb), from_k(b, to_k(a, x - conv)))):
+                def o(reply, want=want):
+                    v = pipeline.single_value(reply)
+                    if v is None or Fraction(v[0], v[1]) != want:
+                        return {"why": "the right operand of + and - is converted by the defining formula: %s" % want, "expected": str(want)}
+                    return None
+                items.append((q, o))
+                stats["sums"] = stats.get("sums", 0) + 1
     for it in prefixed_items(rng, tier):
         items.append(it)
         stats["prefixed"] = stats.get("prefixed", 0) + 1
@@ -198,7 +215,7 @@ def run(rng, tier, model_ok):
     return {
         "evaluations": len(items), "distinct_nontrivial": len({q for q, _ in items}),
         "rule": "rational magnitudes (fixed points, absolute zero, random up to 1e30 with up to 20 decimals, negatives) through all six ordered "
-                "pairs of scales under both spellings of each scale, conversion chains of length 2..4, and an offset scale with powers -3..3 or "
+                "pairs of scales under both spellings of each scale, sums and differences of readings on two scales, conversion chains of length 2..4, and an offset scale with powers -3..3 or "
                 "combined with one or two other units on either side of `to`; non-trivial = distinct queries",
         "samples": [q for q, _ in items[len(corpus) + 2::max(1, len(items) // 7)]][:8],
         "mismatches": mismatches, "failures": failures,
